@@ -1030,7 +1030,7 @@ def run(ctx: fw.Ctx) -> int:
     ctx.sample({'sweep': 'field', 'decl': fd[20], 'state': fs[40]})
     ctx.differential('field', sw2.header, sw2.cases, shard=160)
     # the same alphabet one handler at a time (a registry-level prematch is satisfied by any one handler)
-    sd = fd if ctx.thorough else fd[::4]
+    sd = fd if ctx.thorough else fd[::6]
     ss = [s for i, s in enumerate(fs) if i % (29 if ctx.thorough else 19) == 0 or s['cls'] != 'changing']
     ctx.differential('field1', HEADER, single_cases(ctx, sd, ss), shard=150)
     ctx.differential('decorators', HEADER, attrs, shard=200)
@@ -1041,7 +1041,7 @@ def run(ctx: fw.Ctx) -> int:
                 ctx.nontriv(['decl-varies', s_.name, d])
 
     # ---------- random larger registries ----------
-    n = ctx.scale(700, 12000)
+    n = ctx.scale(600, 12000)
     rnd: list[fw.Case] = []
     for i in range(n):
         cls = r.choice(['changing', 'changing', 'changing', 'watching', 'spawning', 'indexing'])
